@@ -33,7 +33,20 @@ func genText(rng *core.Rng) string {
 	return rng.Text(1+rng.Intn(40), true)
 }
 
+// c09zones: a timestamptz is an instant; the location a handler's time.Time happens to carry (whole hours,
+// half and quarter hours, a local mean time with seconds) does not change it.
+var c09zones = []*time.Location{time.FixedZone("CET", 3600), time.FixedZone("PST", -8*3600), time.FixedZone("IST", 5*3600+1800), time.FixedZone("NPT", 5*3600+2700),
+	time.FixedZone("NST", -(3*3600 + 1800)), time.FixedZone("LMT", 53*60+28), time.FixedZone("ACWST", 8*3600+2700), time.FixedZone("LINT", 14*3600), time.FixedZone("AoE", -12*3600)}
+
 func genValue(rng *core.Rng, oid uint32) any {
+	v := genValueUTC(rng, oid)
+	if t, ok := v.(time.Time); ok && oid == pg.OIDTimestamptz && rng.Intn(3) == 0 {
+		return t.In(core.Pick(rng, c09zones))
+	}
+	return v
+}
+
+func genValueUTC(rng *core.Rng, oid uint32) any {
 	edge := rng.Intn(3) == 0
 	switch oid {
 	case pg.OIDBool:
